@@ -42,6 +42,11 @@ DESC = {
 "C18c-m2": "output re-keyed by completion order when a cluster file is given",
 "C20c-m1": "lenient inflate + cluster table as a second pickle: one exact cut drops the cluster table silently",
 "C20c-m2": ".prev rotation with reader fallback: a killed re-run is summarised from the older run",
+"C05d-m1": "_setup_cluster_df refactor: --assign-loss-prob without any chrom column falls back to the global prior instead of --low-loss-prob (needs a non-default low value)",
+"C05d-m2": "cluster grids summed with np.add.reduceat, segment boundaries from the cluster FILE's counts (wrong when the file lists a mutation the loader drops, not in the last cluster)",
+"C17d-m1": "top-prevalence cluster per sample via idxmax: with tied top clusters the truncal cluster depends on the row order of the cluster file (--assign-loss-prob)",
+"C17d-m2": "clusters numbered over the whole cluster table: a gap in the data point numbering when every mutation of a cluster is dropped",
+"C18d-m2": "truncal chromosome array encoded through enumerate(set(...)): with string chromosome names the permutation test's draws depend on PYTHONHASHSEED (borderline cluster)",
 }
 rows = []
 for d in sorted(glob.glob('/verif/seeded/*/meta.json')):
@@ -52,7 +57,7 @@ for d in sorted(glob.glob('/verif/seeded/*/meta.json')):
     m.setdefault('ran', "tools/confirm_seeds.py: git worktree of /repo HEAD, git apply patch.diff, demo.py with/without the change, pytest phyclone/tests with the change, ./check <ID> --tier quick with PCV_REPO=<worktree>")
     json.dump(m, open(d, 'w'), indent=1)
     det = [k for k, v in m['checks'].items() if v['detected']]
-    rnd = 3 if name.split('-')[0].endswith('c') else 2 if name.split('-')[0].endswith('b') else 1
+    rnd = {"d": 4, "c": 3, "b": 2}.get(name.split('-')[0][-1], 1)
     rows.append("| %s | %d | %s | %s | %s | %s/%s | %s |" % (name, rnd, m['property'], m.get('needs', ''), ", ".join(det) or "-", m['demo']['exit_with_change'], m['demo']['exit_without_change'], m['tests']['passed']))
 table = "| seeded change | round | property | what it does / what it needs to manifest | caught by (quick tier) | demo exit with/without | tests passed |\n|---|---|---|---|---|---|---|\n" + "\n".join(rows) + "\n"
 s = open('/verif/DESIGN.md').read()
